@@ -5,7 +5,7 @@ from tools.props.rfa_units import RfaUnit, FunfitUnit, AdaptiveWindowsUnit, RfaM
 
 class P(Property):
     id = "C05"
-    gen_targets = ["Funfit", "Kernels"]
+    gen_targets = ["Funfit", "Kernels", "RfaGlue"]
 
     def units(self, tier):
         return [RfaUnit(("C05",)), FunfitUnit()]
